@@ -293,15 +293,19 @@ Definition ctx_raw_ok (c : ctx) : bool := forallb (fun kv => value_raw_ok (snd k
 (* ------------------------------------------------------------------ *)
 (* histories on one Ribosome instance                                    *)
 (* What a Ribosome keeps between calls: the registry (name -> mRNA), the filter table (the
-   built-in filters overlaid with the custom table F given at construction; translate() only
-   reads it, so it is a parameter [F : FTable] of the whole model), the strict/silent flags and two statistics counters
-   (_translations_count, _errors_count; read only by get_statistics()).  translate() reads
-   the registry, the filters and strict, and nothing else: it reads neither counter, keeps no
-   per-render state on the instance, and never looks at an mRNA's own .name (the registry is
-   keyed by the REGISTERED name; Protein.source_mrna is not observed).  The model's instance
-   state has the registry, the flag and ONE counter standing for the statistics (the number
-   of operations; the real counters also count nested translates and are not observed). *)
+   built-in filters overlaid with the custom table given at construction and with every filter
+   stored later: r.filters[name] = f, or a registration method where the class has one), the
+   strict/silent flags and two statistics counters (_translations_count, _errors_count; read
+   only by get_statistics()).  translate() reads the registry, the filters and strict, and
+   nothing else: it reads neither counter, keeps no per-render state on the instance, and never
+   looks at an mRNA's own .name (the registry is keyed by the REGISTERED name;
+   Protein.source_mrna is not observed).  The model's instance state has the custom filter
+   table, the registry, the flag and ONE counter standing for the statistics (the number of
+   operations; the real counters also count nested translates and are not observed).
+   Every definition of Impl.v / Spec.v takes the filter table as the implicit [F : FTable]; here
+   it is passed explicitly ([@result_on (i_filters i)]), because it is part of the state. *)
 Record instance := mkInstance {
+  i_filters : ftable;
   i_templates : list (str * template);
   i_strict : bool;
   i_calls : Z }.
@@ -309,7 +313,8 @@ Record instance := mkInstance {
 Inductive op :=
 | OpRegister (n : str) (t : template)   (* create_template(seq, n) / register_template(mRNA(seq, any name)[, name=n]) *)
 | OpRender (t : template) (c : ctx)     (* synthesize(seq, **c) / translate(mRNA(seq, any name) not registered, **c) *)
-| OpTranslate (n : str) (c : ctx).      (* translate(n, **c) by registered name *)
+| OpTranslate (n : str) (c : ctx)       (* translate(n, **c) by registered name *)
+| OpSetFilter (n : str) (cf : cfilter). (* self.filters[n] = f *)
 
 (* self.templates[n] = t : an existing key keeps its position *)
 Fixpoint reg_set (T : list (str * template)) (n : str) (t : template) : list (str * template) :=
@@ -317,38 +322,80 @@ Fixpoint reg_set (T : list (str * template)) (n : str) (t : template) : list (st
   | [] => [(n, t)]
   | (k, u) :: T' => if str_eqb k n then (k, t) :: T' else (k, u) :: reg_set T' n t
   end.
+(* self.filters[n] = f : the table is only ever read by key ([lookup]: first entry wins), so the
+   newest entry goes in front; a built-in filter of that name is replaced (Impl.apply_filter
+   consults the custom table first) *)
+Definition ft_set (F : ftable) (n : str) (cf : cfilter) : ftable := (n, cf) :: F.
 
 Inductive result :=
 | RRegistered
+| RFilterSet
 | RUnknown (n : str)                                          (* ValueError("Unknown template: n") *)
 | RRender (t : template) (c : ctx) (o : outcome) (ot : toutcome * list failure).
 
-(* what an operation answers on registry T, and the registry afterwards: pure functions *)
+(* what an operation answers on filter table F and registry T, and the state afterwards: pure functions *)
 Definition result_on {F : FTable} (strict : bool) (T : list (str * template)) (o : op) : result :=
   let render t c :=
     RRender t c (render_impl strict (print_templates T) c (print t))
                 (render_taint strict (print_templates T) c (print t)) in
   match o with
   | OpRegister _ _ => RRegistered
+  | OpSetFilter _ _ => RFilterSet
   | OpRender t c => render t c
   | OpTranslate n c => match lookup T n with Some t => render t c | None => RUnknown n end
   end.
 Definition registry_after (T : list (str * template)) (o : op) : list (str * template) :=
   match o with OpRegister n t => reg_set T n t | _ => T end.
+Definition filters_after (F : ftable) (o : op) : ftable :=
+  match o with OpSetFilter n cf => ft_set F n cf | _ => F end.
 
-Definition step {F : FTable} (i : instance) (o : op) : instance * result :=
-  (mkInstance (registry_after (i_templates i) o) (i_strict i) (i_calls i + 1),
-   result_on (i_strict i) (i_templates i) o).
+Definition step (i : instance) (o : op) : instance * result :=
+  (mkInstance (filters_after (i_filters i) o) (registry_after (i_templates i) o) (i_strict i) (i_calls i + 1),
+   @result_on (i_filters i) (i_strict i) (i_templates i) o).
 
-Fixpoint run_ops {F : FTable} (i : instance) (os : list op) : list (list (str * template) * result) :=
+(* a row of a history: the filter table and the registry the operation met, and its answer *)
+Definition hrow := (ftable * list (str * template) * result)%type.
+
+Fixpoint run_ops (i : instance) (os : list op) : list hrow :=
   match os with
   | [] => []
-  | o :: rest => let '(i', r) := step i o in (i_templates i, r) :: run_ops i' rest
+  | o :: rest => let '(i', r) := step i o in (i_filters i, i_templates i, r) :: run_ops i' rest
   end.
 
-(* case: the custom filter table the instance is constructed with, the initially registered
-   templates, the operations on ONE instance in order, strict *)
-Definition case := (ftable * list (str * template) * list op * bool)%type.
+(* ------------------------------------------------------------------ *)
+(* several Ribosome instances in one process                              *)
+(* [SNew F T strict] is Ribosome(filters=F, strict=strict) followed by create_template for T: the
+   new instance gets the next index.  [SOn k o] is operation o on instance number k (an index
+   that does not exist yet addresses nothing).  Each instance has its OWN filter table and its OWN
+   registry: an operation rewrites the state of the instance it is addressed to and of no other. *)
+Inductive sop :=
+| SNew (F : ftable) (T : list (str * template)) (strict : bool)
+| SOn (k : nat) (o : op).
+
+Fixpoint set_nth {X} (l : list X) (k : nat) (x : X) : list X :=
+  match l, k with
+  | [], _ => []
+  | _ :: l', O => x :: l'
+  | y :: l', S k' => y :: set_nth l' k' x
+  end.
+
+(* a row of a system history: the instance addressed, its strict flag, the row *)
+Definition srow := (nat * bool * hrow)%type.
+
+Fixpoint run_sys (sys : list instance) (ops : list sop) : list srow :=
+  match ops with
+  | [] => []
+  | SNew F T strict :: rest => run_sys (sys ++ [mkInstance F T strict 0]) rest
+  | SOn k o :: rest =>
+      match nth_error sys k with
+      | None => run_sys sys rest
+      | Some i => let '(i', r) := step i o in
+                  (k, i_strict i, (i_filters i, i_templates i, r)) :: run_sys (set_nth sys k i') rest
+      end
+  end.
+
+(* case: the operations of one process in order, starting with no instance at all *)
+Definition case := list sop.
 
 (* the reference rendering (both modes, delimiter-free or not) whenever the CURRENT registry and
    the template are of the grammar and the context is sentinel-free *)
@@ -364,17 +411,19 @@ Definition spec_row {F : FTable} (T : list (str * template)) (strict : bool) (ma
 
 (* rows per render: error; text; warnings; opacity failures (origin*16+pass, sorted);
                     reference rendering when applicable; plain model = erased taint model.
-   a registration: one row [7]; translate of an unregistered name: [5; name] and five empty rows *)
-Definition result_rows {F : FTable} (strict : bool) (Tr : list (str * template) * result) : list (list Z) :=
-  let '(T, r) := Tr in
+   a registration: one row [7]; a filter stored: one row [8]; translate of an unregistered name:
+   [5; name] and five empty rows.  The reference rendering is computed with the filter table the
+   operation met on ITS OWN instance. *)
+Definition result_rows (sr : srow) : list (list Z) :=
+  let '(_, strict, (F, T, r)) := sr in
   match r with
   | RRegistered => [[7]]
+  | RFilterSet => [[8]]
   | RUnknown n => [5 :: n; []; []; []; [0]; [1]]
   | RRender t c o ot =>
       let plain := obs_plain o in
-      plain ++ [pairs_row (snd ot); spec_row T strict t c; [b2z (zll_eqb plain (obs_taint (fst ot)))]]
+      plain ++ [pairs_row (snd ot); @spec_row F T strict t c; [b2z (zll_eqb plain (obs_taint (fst ot)))]]
   end.
 
 Definition run_case (c : case) : list (list Z) :=
-  let '(F, T, os, strict) := c in
-  concat (map (@result_rows F strict) (@run_ops F (mkInstance T strict 0) os)).
+  concat (map result_rows (run_sys [] c)).
